@@ -130,7 +130,7 @@ func (g *Gen) cons(depth int) *ConsSpec {
 	if g.P.JSONTwin {
 		// keywords, type declarations and fixed literal values are written as
 		// bare words in native syntax; the both-syntax fragment leaves them out
-		for (k >= 44 && k < 59) || k >= 93 {
+		for (k >= 44 && k < 55) || k >= 93 {
 			k = g.n(100)
 		}
 	}
@@ -151,6 +151,12 @@ func (g *Gen) cons(depth int) *ConsSpec {
 			c.Type = g.typ()
 			c.Scope = g.pick([]string{"sc_a", "sc_b"})
 		default:
+			if g.P.JSONTwin {
+				// a traversal that declares an address can only be written as a
+				// legacy bare string in JSON: outside the compared fragment
+				c.Scope = g.pick([]string{"sc_a", "sc_b"})
+				break
+			}
 			c.AddrScope = g.pick([]string{"sc_a", "sc_b"})
 			c.Name = "thing"
 		}
